@@ -404,6 +404,13 @@ func localLiteralTable(v ssa.Value, fn *ssa.Function) bool {
 	return isArr
 }
 
+// isVariadicParam: v is the variadic parameter of fn — `f(prec, a, b, c)`: the caller wrote the elements
+// out, their number is a constant of the call site.
+func isVariadicParam(v ssa.Value, fn *ssa.Function) bool {
+	p, ok := v.(*ssa.Parameter)
+	return ok && fn.Signature.Variadic() && len(fn.Params) > 0 && fn.Params[len(fn.Params)-1] == p
+}
+
 // dataOnlyLoop: the body of the loop at header h only shuffles data — no static call except builtins
 // and conversions, no interface method call, no go/defer/send/select, no store outside locals. Calls of
 // function *values* (a conversion closure handed to a map/filter helper) are allowed. Such a loop over
@@ -503,7 +510,7 @@ func (x *Explorer) constantTrip(fr *Frame, st *State, b, pred *ssa.BasicBlock) b
 		if et == nil {
 			return false
 		}
-		if !containsFuncType(et, 0) && !localLiteralTable(call.Call.Args[0], fr.fn) && !x.dataOnlyLoop(fr.fn, b) {
+		if !containsFuncType(et, 0) && !localLiteralTable(call.Call.Args[0], fr.fn) && !x.dataOnlyLoop(fr.fn, b) && !isVariadicParam(call.Call.Args[0], fr.fn) {
 			return false
 		}
 		k, isK := x.eval(fr, st, v).(*KConst)
@@ -521,9 +528,15 @@ func (x *Explorer) constantTrip(fr *Frame, st *State, b, pred *ssa.BasicBlock) b
 
 // Explore runs an entry point. params gives the abstract arguments.
 func (x *Explorer) Explore(fn *ssa.Function, params []Val) []*Outcome {
+	return x.ExploreWith(fn, func(*State) []Val { return params })
+}
+
+// ExploreWith: as Explore, the arguments being built in the initial state (objects, known sequences).
+func (x *Explorer) ExploreWith(fn *ssa.Function, build func(st *State) []Val) []*Outcome {
 	x.outcomes = nil
 	x.cut = false
 	st := newState()
+	params := build(st)
 	x.callFn(fn, params, nil, st, 0, "", func(st *State, rets []Val, kind exitKind, loop string) {
 		o := &Outcome{St: st, Rets: rets, Kind: kind, Loop: loop}
 		switch kind {
